@@ -1,3 +1,4 @@
+import XdsVerif.Proofs.Flow
 import XdsVerif.Proofs.Conc
 import XdsVerif.Proofs.Sys
 import XdsVerif.Generated.Facts
@@ -204,5 +205,34 @@ theorem s8_nilnil :
 example : (runL V (fun _ => "c") init
       [.getStart 0, .getRegister 0, .deliver true [("c", "v")], .getWake 0, .evict "c", .getReread 0]).map (fun s => s.pc 0)
     = some (.done .err) := by decide
+
+/-! ## A lookup inside `Watch` (`Model/Flow.lean`)
+
+The lookup that creates a notifier calls `Watch` with `m.mu` held; `Watch` takes `c.mu` and waits for room in the request
+channel. Bounded time therefore depends on the request path: the theorem says the only state in which a lookup inside
+`Watch` can wait for ever (transport not stalled) is the S12 shape, which needs a channel filled to capacity (see C07). -/
+
+theorem facts_flow : Generated.flow = Flow.expectedFacts := by decide
+
+/-- **full statement** (false as it stands, see `C07.s12_deadlock_reachable`): a lookup inside `Watch` always gets out.
+**Proved part**: if nothing in the client can move and the transport is not stalled, then either no lookup is inside
+`Watch`, or the client is in the S12 shape -/
+theorem watch_returns_partial {α : Type} (ls : List (Flow.Lbl α)) (s : Flow.S α)
+    (h : Flow.run Generated.seq.reqCap Flow.init ls = some s) (hns : s.stalled = false)
+    (hst : Flow.Stuck Generated.seq.reqCap s) (i : Nat) (r : α) (hp : s.pc i = .want r ∨ s.pc i = .locked r) :
+    Flow.S12 Generated.seq.reqCap s := by
+  rcases Flow.stuck_cases (by decide) (Flow.reachable h).inv hns hst with hq | h12
+  · rcases hq.1 i with e | e <;> rcases hp with hp | hp <;> rw [hp] at e <;> cases e
+  · exact h12
+
+/-- below capacity a lookup inside `Watch` is never stuck: with room in the channel its `sendRequest` completes -/
+theorem watch_returns_below_capacity {α : Type} (s : Flow.S α) (i : Nat) (r : α) (hp : s.pc i = .locked r)
+    (hroom : s.queue.length < Generated.seq.reqCap) : (Flow.step Generated.seq.reqCap s (.pEnq i)).isSome = true := by
+  simp [Flow.step, hp, Flow.canEnq, hroom]
+
+/-- after the client has been stopped a lookup inside `Watch` gives up at once, whatever the channel holds (S9) -/
+theorem watch_returns_after_stop {α : Type} (s : Flow.S α) (i : Nat) (r : α) (hp : s.pc i = .locked r)
+    (hc : s.closed = true) : (Flow.step Generated.seq.reqCap s (.pEnq i)).isSome = true := by
+  simp [Flow.step, hp, Flow.canEnq, hc]
 
 end XdsVerif.Properties.C05
